@@ -7,6 +7,8 @@ import (
 	"runtime/debug"
 	"strings"
 	"sync"
+	"sync/atomic"
+	"time"
 )
 
 // Rng is a small deterministic PRNG (splitmix64 / xorshift) independent of math/rand versions.
@@ -141,3 +143,28 @@ func Trunc(s string, n int) string {
 
 // Stack returns the current goroutine's stack (used inside deferred recover handlers)
 func Stack() []byte { return debug.Stack() }
+
+// Guard runs f in its own goroutine and reports whether it returned within d. The timeout is a generous
+// wall-clock watchdog (cases guarded this way normally take milliseconds); callers confirm a hang by a
+// second, longer attempt before reporting it. A hung goroutine is leaked (it may keep spinning).
+func Guard(d time.Duration, f func()) (returned bool) {
+	done := make(chan struct{})
+	go func() {
+		defer close(done)
+		f()
+	}()
+	select {
+	case <-done:
+		return true
+	case <-time.After(d):
+		return false
+	}
+}
+
+var hangCount int32
+
+// Hangs counts guarded calls that never returned (their goroutines are leaked and may burn CPU)
+func Hangs() int { return int(atomic.LoadInt32(&hangCount)) }
+
+// NoteHang records a leaked hung case
+func NoteHang() { atomic.AddInt32(&hangCount, 1) }
